@@ -173,6 +173,14 @@ namespace
                     auto onrej = [p, plan](std::exception_ptr) { ++p->rejected; };
                     if (ws.file)
                         tr->asyncWrite(peer->fd(), FileBuffer(ws.path)).then(onful, onrej);
+                    else if (ws.len % 3 == 0)
+                    {
+                        // a buffer whose declared length is shorter than its backing string (the public
+                        // RawBuffer(std::string, size_t) constructor): the write is the first `length` bytes
+                        // and nothing else, and the promise carries `length`
+                        std::string backing = ws.data + std::string(1 + ws.len % 97, '#') + "BEYOND-THE-DECLARED-LENGTH";
+                        tr->asyncWrite(peer->fd(), RawBuffer(std::move(backing), ws.data.size())).then(onful, onrej);
+                    }
                     else if (ws.len % 2)
                         peer->send(RawBuffer(ws.data.data(), ws.data.size())).then(onful, onrej);
                     else
